@@ -104,7 +104,7 @@ func sameKeyTwiceBelow(t *gen.Tree) bool {
 
 // asStruct reports whether the builder writes the object as a struct.
 func asStruct(t *gen.Tree) bool {
-	if t.K != "obj" || !structable(t) {
+	if t.K != "obj" || !structable(t) || keysTwiceAsMap(t) {
 		return false
 	}
 	return t.R%8 == 2 || t.R%8 == 7 || sameKeyTwice(t)
@@ -151,8 +151,13 @@ func layoutOf(t *gen.Tree) []seg {
 			continue
 		}
 		switch s.kind {
-		case segMap, segIfaceMap, segTypedMap, segIfaceField:
+		case segMap, segTypedMap, segIfaceField:
 			if sameKeyTwice(&gen.Tree{Keys: t.Keys[s.from:s.to]}) {
+				s.kind = segStruct
+			}
+		case segIfaceMap:
+			// (an interface-keyed map holds a key twice under keys of different dynamic types)
+			if multiplicity(t.Keys[s.from:s.to]) > nKeyTypes {
 				s.kind = segStruct
 			}
 		}
@@ -208,19 +213,11 @@ func altTag(scheme, j, i int, keys []string, sep string) string {
 // name of a field without tag is its lower-cased Go name (every second such
 // field is written that way, under the primary tag only).
 func goFieldName(t *gen.Tree, i int) string {
-	k := t.Keys[i]
-	if len(k) == 1 && k[0] >= 'a' && k[0] <= 'z' && (t.R>>4+i)%2 == 0 {
-		n := 0
-		for _, k2 := range t.Keys {
-			if k2 == k {
-				n++
-			}
-		}
-		if n == 1 {
-			return strings.ToUpper(k)
-		}
+	if tagless(t, i) {
+		name, _ := taglessName(t.Keys[i])
+		return name
 	}
-	return fmt.Sprintf("F%d", i)
+	return fmt.Sprintf("%s%d", fieldPrefix[nameStyle(t.R)], i)
 }
 
 func (b *builder) fieldTag(t *gen.Tree, i int) reflect.StructTag {
@@ -233,8 +230,9 @@ func (b *builder) fieldTag(t *gen.Tree, i int) reflect.StructTag {
 				continue
 			}
 			text = altTag(b.scheme, j, i, keys, b.sep)
-		} else if goFieldName(t, i) == strings.ToUpper(text) {
+		} else if tagless(t, i) {
 			b.use("struct field without tag")
+			b.useIf(text[0] >= 0x80, "struct field without tag, Go name begins with a non-ASCII upper-case letter")
 			continue
 		}
 		p = append(p, name+":"+strconv.Quote(text))
@@ -438,7 +436,7 @@ func (b *builder) build(t *gen.Tree) (interface{}, error) {
 	var out interface{}
 	switch t.K {
 	case "obj":
-		if sameKeyTwice(t) && !structable(t) {
+		if sameKeyTwice(t) && !structable(t) && !keysTwiceAsMap(t) {
 			return nil, fmt.Errorf("an object holds a key twice but can not be written as a struct: %q", t.Keys)
 		}
 		if t.R%8 == 3 && !b.noConfig && !sameKeyTwiceBelow(t) {
@@ -468,20 +466,11 @@ func (b *builder) build(t *gen.Tree) (interface{}, error) {
 		switch t.R % 8 {
 		case 1:
 			if (t.R/8)%2 == 1 {
-				m := make(nIfaceMap, len(t.Keys))
-				for i, k := range t.Keys {
-					m[nStr(k)] = vals[i]
-				}
 				b.use("map[interface{}] with named-string keys")
-				out = m
 			} else {
-				m := make(map[interface{}]interface{}, len(t.Keys))
-				for i, k := range t.Keys {
-					m[k] = vals[i]
-				}
 				b.use("map[interface{}]")
-				out = m
 			}
+			out = b.ifaceMap(t.Keys, vals, keySeed(t.R), (t.R/8)%2 == 1)
 		case 4:
 			m := generic()
 			b.use("*map")
@@ -646,18 +635,14 @@ func (b *builder) structOf(t *gen.Tree, vals []interface{}) interface{} {
 				p.Elem().Set(sv)
 				member = p.Interface()
 			case segNested:
-				outer := reflect.New(reflect.StructOf([]reflect.StructField{{Name: "In", Type: sv.Type(), Tag: b.alwaysInline()}})).Elem()
+				outer := reflect.New(reflect.StructOf([]reflect.StructField{{Name: memberPrefix[nameStyle(t.R)] + "n", Type: sv.Type(), Tag: b.alwaysInline()}})).Elem()
 				outer.Field(0).Set(sv)
 				member = outer.Interface()
 			default:
 				member = sv.Interface()
 			}
 		case segIfaceMap:
-			m := make(map[interface{}]interface{}, s.to-s.from)
-			for i := s.from; i < s.to; i++ {
-				m[t.Keys[i]] = vals[i]
-			}
-			member = m
+			member = b.ifaceMap(t.Keys[s.from:s.to], vals[s.from:s.to], keySeed(t.R), false)
 		case segTypedMap:
 			if ty, ok := commonType(vals[s.from:s.to]); ok {
 				m := reflect.MakeMapWithSize(reflect.MapOf(reflect.TypeOf(""), ty), s.to-s.from)
@@ -686,12 +671,18 @@ func (b *builder) structOf(t *gen.Tree, vals []interface{}) interface{} {
 			word = "squash"
 		}
 		at := len(fields)
-		fields = append(fields, reflect.StructField{Name: fmt.Sprintf("M%d", run), Type: ft, Tag: b.inlineTag(run, word)})
+		fields = append(fields, reflect.StructField{Name: fmt.Sprintf("%s%d", memberPrefix[nameStyle(t.R)], run), Type: ft, Tag: b.inlineTag(run, word)})
 		set = append(set, func(sv reflect.Value) { sv.Field(at).Set(reflect.ValueOf(member)) })
+	}
+	if t.R&decoyBit != 0 {
+		fields = append(fields, b.hiddenField(t))
 	}
 	sv := reflect.New(reflect.StructOf(fields)).Elem()
 	for _, f := range set {
 		f(sv)
+	}
+	if st := nameStyle(t.R); st != 0 {
+		b.use(fmt.Sprintf("struct: Go field names begin with a non-ASCII upper-case letter of %d bytes", len(fieldPrefix[st])))
 	}
 	if len(layout) > 1 || layout[0].kind != segFields {
 		b.use("struct with inline members")
